@@ -94,10 +94,11 @@ def Duplex.runOk (env : Env) (sub : Nat) : Duplex → List DOp → Bool
 
 theorem good_stepO (env : Env) (hl : EnvLaws env) (sub : Nat) (ci : Cipher) (size : Nat) (hsz : 1 ≤ size) (start : Nat)
     (s : Sys) (ch : Chan) (o : Option SysOp) (h : Good env sub ci size start s ch) (hok : s.opOkO env sub o = true) :
-    Good env sub ci size start (s.stepO env sub o) (stepOpt (wrap env ci) size ch (s.absOpO env sub o)) := by
+    Good env sub ci size start (s.stepO env sub o) (stepOpt (wrap env ci) size ch (s.absOpO env sub o)) ∧
+    Chan.runOk (wrap env ci) size ch (s.absOpO env sub o).toList = true := by
   cases o with
-  | none => exact h
-  | some op => exact (good_step env hl sub ci size hsz start s ch op h hok).1
+  | none => exact ⟨h, rfl⟩
+  | some op => exact good_step env hl sub ci size hsz start s ch op h hok
 
 /-- the same endpoints stay the same endpoints -/
 theorem same_step (env : Env) (sub : Nat) (d : Duplex) (op : DOp) (h : d.Same) : (d.step env sub op).Same := by
@@ -154,8 +155,8 @@ theorem duplex_step (env : Env) (hl : EnvLaws env) (sub : Nat) (ciA ciB : Cipher
       (stepOpt (wrap env ciA) sizeA chAB (d.ab.absOpO env sub (op.inAB sub d)))
       (stepOpt (wrap env ciB) sizeB chBA (d.ba.absOpO env sub (op.inBA sub d))) := by
   simp only [Duplex.opOk, Bool.and_eq_true] at hok
-  exact ⟨good_stepO env hl sub ciA sizeA hA startA d.ab chAB _ h.ab hok.1,
-         good_stepO env hl sub ciB sizeB hB startB d.ba chBA _ h.ba hok.2,
+  exact ⟨(good_stepO env hl sub ciA sizeA hA startA d.ab chAB _ h.ab hok.1).1,
+         (good_stepO env hl sub ciB sizeB hB startB d.ba chBA _ h.ba hok.2).1,
          same_step env sub d op h.same⟩
 
 /-- the two channel runs a duplex run amounts to -/
@@ -231,5 +232,85 @@ theorem duplex_complete {env : Env} {sub : Nat} {ciA ciB : Cipher} {sizeA sizeB 
   refine ⟨(good_complete h.ab hallA h.same.pa (Or.inl hopenA)).1, ?_⟩
   rw [h.same.a]
   exact (good_complete h.ba hallB h.same.pb (Or.inl hopenB)).1
+
+/-! ## the channel runs of the two directions, as lists of channel operations (for the liveness theorem) -/
+
+def Duplex.absAB (env : Env) (sub : Nat) : Duplex → List DOp → List Op
+  | _, [] => []
+  | d, op :: ops => (d.ab.absOpO env sub (op.inAB sub d)).toList ++ Duplex.absAB env sub (d.step env sub op) ops
+
+def Duplex.absBA (env : Env) (sub : Nat) : Duplex → List DOp → List Op
+  | _, [] => []
+  | d, op :: ops => (d.ba.absOpO env sub (op.inBA sub d)).toList ++ Duplex.absBA env sub (d.step env sub op) ops
+
+theorem chans_eq_runs (env : Env) (sub : Nat) (ciA ciB : Cipher) (sizeA sizeB : Nat) : ∀ (ops : List DOp) (d : Duplex) (x y : Chan),
+    Duplex.chans env sub ciA ciB sizeA sizeB d x y ops =
+      (Chan.run (wrap env ciA) sizeA x (Duplex.absAB env sub d ops), Chan.run (wrap env ciB) sizeB y (Duplex.absBA env sub d ops)) := by
+  intro ops
+  induction ops with
+  | nil => intro d x y; rfl
+  | cons op ops ih =>
+    intro d x y
+    simp only [Duplex.chans, Duplex.absAB, Duplex.absBA]
+    rw [ih, run_append, run_append, run_toList, run_toList]
+
+/-- both channel runs satisfy the channel's half-window hypothesis -/
+theorem duplex_runOk (env : Env) (hl : EnvLaws env) (sub : Nat) (ciA ciB : Cipher) (sizeA sizeB : Nat) (hA : 1 ≤ sizeA) (hB : 1 ≤ sizeB)
+    (startA startB : Nat) : ∀ (ops : List DOp) (d : Duplex) (chAB chBA : Chan),
+    DGood env sub ciA ciB sizeA sizeB startA startB d chAB chBA → Duplex.runOk env sub d ops = true →
+    Chan.runOk (wrap env ciA) sizeA chAB (Duplex.absAB env sub d ops) = true ∧
+    Chan.runOk (wrap env ciB) sizeB chBA (Duplex.absBA env sub d ops) = true := by
+  intro ops
+  induction ops with
+  | nil => intro d x y _ _; exact ⟨rfl, rfl⟩
+  | cons op ops ih =>
+    intro d x y h hok
+    simp only [Duplex.runOk, Bool.and_eq_true] at hok
+    have hok1 := hok.1
+    simp only [Duplex.opOk, Bool.and_eq_true] at hok1
+    have g1 := good_stepO env hl sub ciA sizeA hA startA d.ab x _ h.ab hok1.1
+    have g2 := good_stepO env hl sub ciB sizeB hB startB d.ba y _ h.ba hok1.2
+    have h1 := duplex_step env hl sub ciA ciB sizeA sizeB hA hB startA startB d x y op h hok.1
+    have := ih _ _ _ h1 hok.2
+    simp only [Duplex.absAB, Duplex.absBA]
+    rw [runOk_append, runOk_append, run_toList, run_toList, g1.2, g2.2, Bool.true_and, Bool.true_and]
+    exact this
+
+/-- **liveness in both directions**: starting from the initial channels — if both ends are still open and connected and every
+    packet either end handed to its transport has been delivered to the other end at least once (as seen in the corresponding
+    channel runs), each application has exactly what the other one sent -/
+theorem duplex_liveness (env : Env) (hl : EnvLaws env) (sub : Nat) (ciA ciB : Cipher) (sizeA sizeB : Nat) (hA : 1 ≤ sizeA) (hB : 1 ≤ sizeB)
+    (startA startB : Nat) (hsA : startA < 65536) (hsB : startB < 65536) (ops : List DOp) (d : Duplex)
+    (h0 : DGood env sub ciA ciB sizeA sizeB startA startB d (Chan.init startA) (Chan.init startB))
+    (hok : Duplex.runOk env sub d ops = true)
+    (hopenB : (Duplex.run env sub d ops).ab.b.eof = false) (hopenA : (Duplex.run env sub d ops).ba.b.eof = false)
+    (hconA : (Duplex.run env sub d ops).ab.a.state = STATE_CONNECTED) (hconB : (Duplex.run env sub d ops).ba.a.state = STATE_CONNECTED)
+    (hallA : ∀ j, j < (Duplex.run env sub d ops).ab.net.length →
+      j ∈ arrived (wrap env ciA) sizeA (Chan.init startA) (Duplex.absAB env sub d ops))
+    (hallB : ∀ j, j < (Duplex.run env sub d ops).ba.net.length →
+      j ∈ arrived (wrap env ciB) sizeB (Chan.init startB) (Duplex.absBA env sub d ops)) :
+    ((Duplex.run env sub d ops).ab.b.queues[sub]?.getD []) = (Duplex.run env sub d ops).ab.accepted ∧
+    ((Duplex.run env sub d ops).ab.a.queues[sub]?.getD []) = (Duplex.run env sub d ops).ba.accepted := by
+  have hg := duplex_run env hl sub ciA ciB sizeA sizeB hA hB startA startB ops d _ _ h0 hok
+  have hr := duplex_runOk env hl sub ciA ciB sizeA sizeB hA hB startA startB ops d _ _ h0 hok
+  rw [chans_eq_runs] at hg
+  simp only [] at hg
+  have one : ∀ (ci : Cipher) (size start : Nat) (hsz : 1 ≤ size) (hs : start < 65536) (s : Sys) (l : List Op)
+      (g : Good env sub ci size start s (Chan.run (wrap env ci) size (Chan.init start) l))
+      (hrok : Chan.runOk (wrap env ci) size (Chan.init start) l = true) (hopen : s.b.eof = false) (hidle : s.pend = [])
+      (hcon : s.a.state = STATE_CONNECTED)
+      (hall : ∀ j, j < s.net.length → j ∈ arrived (wrap env ci) size (Chan.init start) l),
+      (s.b.queues[sub]?.getD []) = s.accepted := by
+    intro ci size start hsz hs s l g hrok hopen hidle hcon hall
+    have hcl : (Chan.run (wrap env ci) size (Chan.init start) l).r.core.closed = false := by
+      rw [g.cpl.rrel.closed]; exact hopen
+    have hlen : (Chan.run (wrap env ci) size (Chan.init start) l).s.log.length = s.net.length := by
+      rw [← g.cpl.log, List.length_map]
+    have hrel := all_arrived_all_released (wrap env ci) (good_cipher hl g) size hsz start hs _ hrok hcl
+      (fun j hj => hall j (by rw [← hlen]; exact hj))
+    exact (good_complete g (by rw [g.cpl.nrel, hrel, hlen]) hidle (Or.inl hcon)).1
+  refine ⟨one ciA sizeA startA hA hsA _ _ hg.ab hr.1 hopenB hg.same.pa hconA hallA, ?_⟩
+  rw [hg.same.a]
+  exact one ciB sizeB startB hB hsB _ _ hg.ba hr.2 hopenA hg.same.pb hconB hallB
 
 end Nx.L1
